@@ -89,6 +89,24 @@ def load_known_all():
             if m: out.setdefault(m.group(1), {})[m.group(2)] = m.group(3)
     return out
 
+# quirk name -> (constant it belongs to, invariants that state exactly what the quirk breaks)
+QUIRKS = {"SendNoExpiry": ("Q", ["NotStranded"]), "MirrorPos3": ("TQ", [])}
+
+def quirk_cfg(cfgname, pid, with_own=False):
+    """text of spec/<cfgname> with the quirks of listed known findings switched on: those of other properties always
+    (behaviour this property does not constrain), those of `pid` itself only if with_own.  Returns (text, own dict)."""
+    allk = load_known_all()
+    other = sorted(k for p, d in allk.items() if p != pid for k in d if k in QUIRKS)
+    own = {k: v for k, v in allk.get(pid, {}).items() if k in QUIRKS}
+    on = other + (sorted(own) if with_own else [])
+    t = open(os.path.join(tlc.SPEC, cfgname)).read()
+    for const in ("Q", "TQ"):
+        qs = [k for k in on if QUIRKS[k][0] == const]
+        t = re.sub(r"\b%s = \{\}" % const, "%s = {%s}" % (const, ", ".join('"%s"' % x for x in qs)), t)
+    for k in on:
+        for inv in QUIRKS[k][1]: t = re.sub(r"\b%s\b ?" % inv, "", t)
+    return t, own, other
+
 # ------------------------------------------------------------------ trace validation
 
 def write_trace(path, events):
